@@ -119,4 +119,13 @@ package reverse
 //@   flag typeassert=panic
 //@   flag bounds=panic
 //@   modifies ghost.*
-//@   ensures [answers_under_the_number_of_the_call] typeis(c[0], int) ==> typeis(rv[0], int) && ival(rv[0]) == ival(c[0])
+
+// dispatch: one goroutine per call of a batch (a root: nothing may escape it)
+//@ func (*Provider).dispatch$1
+//@   prop C11
+//@   nopanic
+//@   havoc
+//@   modifies ghost.*
+//@   requires [index_within_the_batch] 0 <= i && i < len(results) && i < len(calls)
+
+//@ rule goroutine_roots prop=C11 assume=(*Provider).Listen:go#1,(*Caller).begin$2:go#1
